@@ -4,8 +4,8 @@ HOOK_COMMITS = []
 
 ENGINES = [
     {'name': 'E1-vsched', 'path': '/verif/vmc/sched.py',
-     'serves_properties': ['C03', 'C04', 'C05', 'C06', 'C13', 'C14', 'C15', 'C16',
-                           'C20'],
+     'serves_properties': ['C03', 'C04', 'C05', 'C06', 'C10', 'C12', 'C13', 'C14',
+                           'C15', 'C16', 'C20'],
      'kind_free_text': 'deterministic cooperative scheduler (baton passing between '
                        'real threads, virtual clock) + stateless DFS explorer over '
                        'choice sequences (preemption / delay / deviation bounded, '
@@ -16,8 +16,8 @@ ENGINES = [
                        'handlers, with an exhaustive fault menu (deadline before / '
                        'after the handler, worker death)'},
     {'name': 'E3-enumerators', 'path': '/verif/vmc/enums.py',
-     'serves_properties': ['C01', 'C02', 'C07', 'C08', 'C09', 'C10', 'C11', 'C12',
-                           'C17', 'C18', 'C19'],
+     'serves_properties': ['C01', 'C02', 'C03', 'C07', 'C08', 'C09', 'C10', 'C11',
+                           'C12', 'C17', 'C18', 'C19'],
      'kind_free_text': 'bounded-exhaustive enumeration of inputs / programs / '
                        'histories against boring reference models; explicit-state '
                        'BFS with replay-from-scratch'},
